@@ -194,7 +194,18 @@ META["C20"] = {
     "technique": "exhaustive grid enumeration + explicit-state BFS over operation sequences (with virtual timer events) on the implementation",
 }
 
-ENGINE_OF = {"C20": "seq", "C07": "seq", "C15": "sched", "C16": "seq", "C14": "seq", "C13": "seq", "C05": "seq", "C11": "seq", "C10": "seq+sched", "C12": "sched", "C03": "seq", "C06": "seq+sched", "C09": "sched", "C08": "seq", "C02": "seq+sched", "C04": "seq+sched", "C01": "seq+sched"}
+META["C17"] = {
+    "level": "fault_enumeration",
+    "rule": "per configuration (file size limit 60 B = one line / 200 B = three lines / 1 MiB x file count limit 1/2/3) EVERY write history up to the depth bound over {second step +0 / +1 / +2 / +1 day} x {batch of 1 or 2 items} is executed on the real writer in memory-backed scratch space; on the resulting directory every single query (all [begin,end] over the written seconds +-1 x resource '' / A / B; from-time x max lines 1/2/100) on a fresh searcher and, for histories of length <=3, every pair (first query from a reduced set, second from the full set) on ONE searcher is compared with the retained accepted items (order, duplicates, field-exact); for histories up to the cut depth the last non-empty data file and, separately, its index file are truncated at EVERY byte offset and the reduced query set is re-run: no error, no panic, only written items, every range-query item whose line and index entry lie before the cut; distinct = configuration + file count + retained items",
+    "assumptions": [A_CLOCK, "the metric log package is not instrumented (single goroutine)", "crash model: a prefix of the last data file or of its index file at any byte (not reordered or partially persisted pages across both files)", "resource names without the field separator or line breaks"],
+    "budget_quick": 120,
+    "budget_thorough": 1500,
+    "text": "Exhaustive write histories on the real writer with exhaustive query sets, plus every truncation point of the newest data and index file.",
+    "level_note": "Write depth 3 (quick) / 5 (thorough); cut points for histories up to depth 2 / 3.",
+    "technique": "bounded exhaustive enumeration of write histories x queries, and exhaustive enumeration of truncation offsets, on the implementation",
+}
+
+ENGINE_OF = {"C17": "seq", "C20": "seq", "C07": "seq", "C15": "sched", "C16": "seq", "C14": "seq", "C13": "seq", "C05": "seq", "C11": "seq", "C10": "seq+sched", "C12": "sched", "C03": "seq", "C06": "seq+sched", "C09": "sched", "C08": "seq", "C02": "seq+sched", "C04": "seq+sched", "C01": "seq+sched"}
 
 # properties not claimed, with the reason (kept current)
 NOT_APPLICABLE = {}
